@@ -1126,15 +1126,9 @@ def judge_builder(ctx, J, what, rec, net, o, confirm):
         # the whole loop, replayed with the recorded partition of each round
         mt = "[" + "; ".join("(%s, %s)" % (coq([list(x) for x in sp["xs"]]), coq(list(sp["blocks"])))
                              for sp in o["seps"]) + "]"
-        # a run that RETURNED although some round merged nothing can only come from the repaired loop
-        # (finding 17: the loop as it stands never leaves such a round); it is compared with the
-        # repaired model, every other run with the model of the loop as it stands
+        term = "build_agglom (sub_of_table %s) (memb_of_table %s) %d %d" % (tbl, mt, rec["opts"]["groupsize"], n)
         if any(len(sp["groups"]) >= sp["k"] for sp in o["seps"]):
-            term = "build_agglom_fixed (sub_of_table %s) (memb_of_table %s) %d %d" % (tbl, mt, rec["opts"]["groupsize"], n)
-            ctx.count("agglom_no_progress_round_returned")
-        else:
-            term = "build_agglom (sub_of_table %s) (memb_of_table %s) %d %d %d" % (
-                tbl, mt, rec["opts"]["groupsize"], len(o["seps"]) + 1, n)
+            ctx.count("agglom_no_progress_round_break")
         J.model("build_agglom with the recorded partitions vs the tree built", term, want,
                 dict(rec, impl_nested=o["nested"], seps=o["seps"], subs=o["subs"]))
         ctx.count("agglom_replayed")
